@@ -419,6 +419,25 @@ func VerifC08_StatefulSetLikeWorkload() {
 		newVer = "v2"
 	}
 	newObj := mk(newVer, strategy, replicas)
+	// the rollout-id is carried in the workload's *annotations*; a label of the same name decides nothing
+	ids := []string{"", "1", "2"}
+	oldID, newID := ids[verifrt.IntRange("sts.oldRolloutID", 0, 2)], ids[verifrt.IntRange("sts.newRolloutID", 0, 2)]
+	if oldID != "" {
+		oldObj.SetAnnotations(map[string]string{appsv1beta1.RolloutIDLabel: oldID})
+	}
+	if newID != "" {
+		newObj.SetAnnotations(map[string]string{appsv1beta1.RolloutIDLabel: newID})
+	}
+	if verifrt.Bool("sts.hasRolloutIDLabel") {
+		oldObj.SetLabels(map[string]string{appsv1beta1.RolloutIDLabel: ids[verifrt.IntRange("sts.oldRolloutIDLabel", 1, 2)]})
+		newObj.SetLabels(map[string]string{appsv1beta1.RolloutIDLabel: ids[verifrt.IntRange("sts.newRolloutIDLabel", 1, 2)]})
+	}
+	// with a rollout-id the id names the release (a new id is a release, the same id is not, whatever the template);
+	// without one the pod template does
+	releaseChange := templateChanged
+	if newID != "" {
+		releaseChange = oldID != newID
+	}
 	rs := c08MakeRolloutsN("apps.kruise.io/v1beta1", "StatefulSet", 1)
 	h := &UnifiedWorkloadHandler{Client: rs.client()}
 	var changed bool
@@ -430,7 +449,7 @@ func VerifC08_StatefulSetLikeWorkload() {
 	}
 	m := rs.activeMatch
 	rolling := strategy != 3
-	mustHold := templateChanged && replicas > 0 && rolling && m != nil && !m.Spec.Strategy.IsEmptyRelease()
+	mustHold := releaseChange && replicas > 0 && rolling && m != nil && !m.Spec.Strategy.IsEmptyRelease()
 	if mustHold {
 		verifrt.Cover("held")
 		verifrt.Assert(changed, "C08.statefulsetlike.heldBackWhenRequired")
